@@ -157,6 +157,14 @@ func execC04(t *testing.T, c *Case) *Verdict {
 			if i < len(base) && out[i] != base[i] {
 				ci, oi := e.opAt(i)
 				op := &c.Clients[ci][oi]
+				if sd != sdigs[0] && timeDependent(c.Programs[op.Prog].Src) && !hasTimeOpt(op) {
+					// The two sub-runs did not follow the same schedule (a lazily built table or memo is cold
+					// in the first and warm in the second, so the second meets fewer yield points): the clock
+					// jumps of other clients fall elsewhere, and an evaluation that reads the clock may
+					// legitimately see another instant. Only the clock oracle judges it.
+					v.Stats.probe("zone-comparison-skipped-schedules-differ")
+					continue
+				}
 				e.violate("zone-independence", "zone:"+classifyZoneDiff(c.Programs[op.Prog].Src, base[i], out[i]),
 					fmt.Sprintf("client %d op %d program %q: outcome under process zone %s/%s = %s ; under %s/%s = %s",
 						ci, oi, c.Programs[op.Prog].Src, subs[0].compile, subs[0].eval, short(base[i], 300), z.compile, z.eval, short(out[i], 300)))
@@ -168,6 +176,15 @@ func execC04(t *testing.T, c *Case) *Verdict {
 	v.SchedDigest = digest(strings.Join(sdigs, ","))
 	v.OutcomeDigest = digest(strings.Join(odigs, ","))
 	return v
+}
+
+func hasTimeOpt(op *Op) bool {
+	for _, o := range op.Opts {
+		if o.Kind == "time" {
+			return true
+		}
+	}
+	return false
 }
 
 // classifyZoneDiff gives zone-dependence violations a stable signature.
